@@ -17,6 +17,37 @@ pub enum Cc {
     Le,
     Gt,
     Ge,
+    Mi,
+    Pl,
+    Hi,
+    Ls,
+    Hs,
+    Lo,
+}
+
+/// further data-processing instructions (not emitted by the pinned back end; accepted so that a
+/// change that starts using them is judged by its behaviour)
+#[derive(Clone, Copy, Debug, PartialEq)]
+pub enum Alu {
+    And,
+    Orr,
+    Eor,
+    Lsl,
+    Lsr,
+    Asr,
+    Udiv,
+}
+
+fn alu(op: Alu, a: u64, b: u64) -> u64 {
+    match op {
+        Alu::And => a & b,
+        Alu::Orr => a | b,
+        Alu::Eor => a ^ b,
+        Alu::Lsl => a << (b & 63),
+        Alu::Lsr => a >> (b & 63),
+        Alu::Asr => ((a as i64) >> (b & 63)) as u64,
+        Alu::Udiv => if b == 0 { 0 } else { a / b },
+    }
 }
 
 #[derive(Clone, Debug, PartialEq)]
@@ -28,6 +59,19 @@ pub enum Ins {
     Mul(u8, u8, u8),
     Sdiv(u8, u8, u8),
     Msub(u8, u8, u8, u8),
+    Madd(u8, u8, u8, u8),
+    AluR(Alu, u8, u8, u8),
+    /// shifts by an immediate 0..63
+    ShiftI(Alu, u8, u8, i64),
+    Neg(u8, u8),
+    Mvn(u8, u8),
+    /// ADDS / SUBS / CMN / TST (register operands; d may be XZR)
+    AddsR(u8, u8, u8),
+    SubsR(u8, u8, u8),
+    AndsR(u8, u8, u8),
+    Cbz(bool, u8, usize),
+    Tbz(bool, u8, u32, usize),
+    Nop,
     B(usize),
     Bcc(Cc, usize),
     Br(u8),
@@ -213,7 +257,8 @@ pub fn load(text: &str, code_base: u64) -> Result<Prog, LoadErr> {
                 }
                 Ins::Msub(gpr(0)?, gpr(1)?, gpr(2)?, gpr(3)?)
             }
-            "B" | "BL" | "BEQ" | "BNE" | "BLT" | "BLE" | "BGT" | "BGE" | "B.EQ" | "B.NE" | "B.LT" | "B.LE" | "B.GT" | "B.GE" => {
+            "B" | "BL" | "BEQ" | "BNE" | "BLT" | "BLE" | "BGT" | "BGE" | "B.EQ" | "B.NE" | "B.LT" | "B.LE" | "B.GT" | "B.GE" | "B.MI" | "B.PL" | "B.HI" | "B.LS" | "B.HS" | "B.CS" | "B.LO"
+            | "B.CC" => {
                 if ops.len() != 1 {
                     return Err(bad("operand count"));
                 }
@@ -228,6 +273,12 @@ pub fn load(text: &str, code_base: u64) -> Result<Prog, LoadErr> {
                         "LT" => Ins::Bcc(Cc::Lt, usize::MAX),
                         "LE" => Ins::Bcc(Cc::Le, usize::MAX),
                         "GT" => Ins::Bcc(Cc::Gt, usize::MAX),
+                        "MI" => Ins::Bcc(Cc::Mi, usize::MAX),
+                        "PL" => Ins::Bcc(Cc::Pl, usize::MAX),
+                        "HI" => Ins::Bcc(Cc::Hi, usize::MAX),
+                        "LS" => Ins::Bcc(Cc::Ls, usize::MAX),
+                        "HS" | "CS" => Ins::Bcc(Cc::Hs, usize::MAX),
+                        "LO" | "CC" => Ins::Bcc(Cc::Lo, usize::MAX),
                         _ => Ins::Bcc(Cc::Ge, usize::MAX),
                     }
                 }
@@ -329,6 +380,85 @@ pub fn load(text: &str, code_base: u64) -> Result<Prog, LoadErr> {
                 }
             }
             "RET" => Ins::Ret,
+            "NOP" => Ins::Nop,
+            "MADD" => {
+                if ops.len() != 4 {
+                    return Err(bad("operand count"));
+                }
+                Ins::Madd(gpr(0)?, gpr(1)?, gpr(2)?, gpr(3)?)
+            }
+            "AND" | "ORR" | "EOR" | "UDIV" | "LSL" | "LSR" | "ASR" | "LSLV" | "LSRV" | "ASRV" => {
+                if ops.len() != 3 {
+                    return Err(bad("operand count"));
+                }
+                let op = match mn {
+                    "AND" => Alu::And,
+                    "ORR" => Alu::Orr,
+                    "EOR" => Alu::Eor,
+                    "UDIV" => Alu::Udiv,
+                    "LSL" | "LSLV" => Alu::Lsl,
+                    "LSR" | "LSRV" => Alu::Lsr,
+                    _ => Alu::Asr,
+                };
+                let (d, n) = (gpr(0)?, gpr(1)?);
+                if let Some(m) = reg(&ops[2]) {
+                    if m == SP {
+                        return Err(noenc("SP as a data-processing operand".into()));
+                    }
+                    Ins::AluR(op, d, n, m)
+                } else if matches!(op, Alu::Lsl | Alu::Lsr | Alu::Asr) {
+                    let imm: i64 = ops[2].parse().map_err(|_| bad("immediate"))?;
+                    if !(0..64).contains(&imm) {
+                        return Err(noenc(format!("shift amount {imm} outside 0..63")));
+                    }
+                    Ins::ShiftI(op, d, n, imm)
+                } else {
+                    // logical immediates are bitmask encodings; not modelled
+                    return Err(bad("logical immediate form is not modelled"));
+                }
+            }
+            "NEG" | "MVN" => {
+                if ops.len() != 2 {
+                    return Err(bad("operand count"));
+                }
+                if mn == "NEG" { Ins::Neg(gpr(0)?, gpr(1)?) } else { Ins::Mvn(gpr(0)?, gpr(1)?) }
+            }
+            "ADDS" | "SUBS" | "ANDS" => {
+                if ops.len() != 3 {
+                    return Err(bad("operand count"));
+                }
+                let (d, n, m) = (gpr(0)?, gpr(1)?, gpr(2)?);
+                match mn {
+                    "ADDS" => Ins::AddsR(d, n, m),
+                    "SUBS" => Ins::SubsR(d, n, m),
+                    _ => Ins::AndsR(d, n, m),
+                }
+            }
+            "CMN" | "TST" => {
+                if ops.len() != 2 {
+                    return Err(bad("operand count"));
+                }
+                let (n, m) = (gpr(0)?, gpr(1)?);
+                if mn == "CMN" { Ins::AddsR(XZR, n, m) } else { Ins::AndsR(XZR, n, m) }
+            }
+            "CBZ" | "CBNZ" => {
+                if ops.len() != 2 {
+                    return Err(bad("operand count"));
+                }
+                fixups.push((ins.len(), ops[1].clone(), line));
+                Ins::Cbz(mn == "CBZ", gpr(0)?, usize::MAX)
+            }
+            "TBZ" | "TBNZ" => {
+                if ops.len() != 3 {
+                    return Err(bad("operand count"));
+                }
+                let bit: u32 = ops[1].trim_start_matches('#').parse().map_err(|_| bad("bit number"))?;
+                if bit > 63 {
+                    return Err(noenc(format!("bit number {bit} outside 0..63")));
+                }
+                fixups.push((ins.len(), ops[2].clone(), line));
+                Ins::Tbz(mn == "TBZ", gpr(0)?, bit, usize::MAX)
+            }
             _ => return Err(bad("unknown mnemonic")),
         };
         ins.push(i);
@@ -339,7 +469,7 @@ pub fn load(text: &str, code_base: u64) -> Result<Prog, LoadErr> {
             .get(&l)
             .ok_or_else(|| LoadErr::Text(Viol::new(Class::Text, format!("line {line}: undefined label `{l}`"))))?;
         match &mut ins[idx] {
-            Ins::B(t) | Ins::Bcc(_, t) | Ins::Adr(_, t) => *t = tgt,
+            Ins::B(t) | Ins::Bcc(_, t) | Ins::Adr(_, t) | Ins::Cbz(_, _, t) | Ins::Tbz(_, _, _, t) => *t = tgt,
             _ => unreachable!(),
         }
     }
@@ -370,6 +500,7 @@ struct Flags {
     n: bool,
     z: bool,
     v: bool,
+    c: bool,
     u: u32,
 }
 
@@ -435,7 +566,8 @@ impl<'a> Machine<'a> {
     }
     fn set_flags_sub(&mut self, a: V, b: V) {
         let (r, of) = (a.v as i64).overflowing_sub(b.v as i64);
-        self.flags = Flags { n: r < 0, z: r == 0, v: of, u: if a.u != 0 { a.u } else { b.u } };
+        // C after a subtraction = no borrow
+        self.flags = Flags { n: r < 0, z: r == 0, v: of, c: a.v >= b.v, u: if a.u != 0 { a.u } else { b.u } };
     }
 
     fn run(&mut self, entry_sp: u64) -> Res<i64> {
@@ -511,6 +643,59 @@ impl<'a> Machine<'a> {
                     let u = if x.u != 0 { x.u } else if y.u != 0 { y.u } else { z.u };
                     self.set(*d, V { v: r, u });
                 }
+                Ins::Nop => {}
+                Ins::Madd(d, n, m, a) => {
+                    let (x, y, z) = (self.get(*n), self.get(*m), self.get(*a));
+                    let u = if x.u != 0 { x.u } else if y.u != 0 { y.u } else { z.u };
+                    self.set(*d, V { v: z.v.wrapping_add(x.v.wrapping_mul(y.v)), u });
+                }
+                Ins::AluR(op, d, n, m) => {
+                    let (x, y) = (self.get(*n), self.get(*m));
+                    // `EOR Xd, Xn, Xn` does not depend on the old value
+                    let v = if *op == Alu::Eor && n == m { V::d(0) } else { V::combine(alu(*op, x.v, y.v), x, y) };
+                    self.set(*d, v);
+                }
+                Ins::ShiftI(op, d, n, i) => {
+                    let x = self.get(*n);
+                    self.set(*d, V { v: alu(*op, x.v, *i as u64), u: x.u });
+                }
+                Ins::Neg(d, m) => {
+                    let x = self.get(*m);
+                    self.set(*d, V { v: x.v.wrapping_neg(), u: x.u });
+                }
+                Ins::Mvn(d, m) => {
+                    let x = self.get(*m);
+                    self.set(*d, V { v: !x.v, u: x.u });
+                }
+                Ins::SubsR(d, n, m) => {
+                    let (x, y) = (self.get(*n), self.get(*m));
+                    self.set_flags_sub(x, y);
+                    self.set(*d, V::combine(x.v.wrapping_sub(y.v), x, y));
+                }
+                Ins::AddsR(d, n, m) => {
+                    let (x, y) = (self.get(*n), self.get(*m));
+                    let (r, of) = (x.v as i64).overflowing_add(y.v as i64);
+                    self.flags = Flags { n: r < 0, z: r == 0, v: of, c: x.v.checked_add(y.v).is_none(), u: if x.u != 0 { x.u } else { y.u } };
+                    self.set(*d, V::combine(r as u64, x, y));
+                }
+                Ins::AndsR(d, n, m) => {
+                    let (x, y) = (self.get(*n), self.get(*m));
+                    let r = x.v & y.v;
+                    self.flags = Flags { n: (r as i64) < 0, z: r == 0, v: false, c: false, u: if x.u != 0 { x.u } else { y.u } };
+                    self.set(*d, V::combine(r, x, y));
+                }
+                Ins::Cbz(zero, r, t) => {
+                    let x = self.need(self.get(*r), "compare-and-branch operand")?;
+                    if (x == 0) == *zero {
+                        next = *t;
+                    }
+                }
+                Ins::Tbz(zero, r, bit, t) => {
+                    let x = self.need(self.get(*r), "test-and-branch operand")?;
+                    if ((x >> bit) & 1 == 0) == *zero {
+                        next = *t;
+                    }
+                }
                 Ins::B(t) => next = *t,
                 Ins::Bcc(cc, t) => {
                     if self.flags.u != 0 {
@@ -524,6 +709,12 @@ impl<'a> Machine<'a> {
                         Cc::Le => f.z || f.n != f.v,
                         Cc::Gt => !f.z && f.n == f.v,
                         Cc::Ge => f.n == f.v,
+                        Cc::Mi => f.n,
+                        Cc::Pl => !f.n,
+                        Cc::Hi => f.c && !f.z,
+                        Cc::Ls => !f.c || f.z,
+                        Cc::Hs => f.c,
+                        Cc::Lo => !f.c,
                     };
                     if take {
                         next = *t;
@@ -677,7 +868,7 @@ pub fn exec(p: &Prog, args: &[i64], plan: &EnvPlan, opts: &ExecOpts) -> (ExecOut
     // AAPCS64: SP is 16-byte aligned at a public interface
     let entry_sp = plan.stack_top & !0xf;
     let c = Core::new(plan, opts, entry_sp, 0, p.probe_names.len(), true);
-    let mut m = Machine { p, c, regs: [V::d(0); 32], flags: Flags { n: false, z: false, v: false, u: 0 }, entry_regs: [V::d(0); 32], pc: p.entry };
+    let mut m = Machine { p, c, regs: [V::d(0); 32], flags: Flags { n: false, z: false, v: false, c: false, u: 0 }, entry_regs: [V::d(0); 32], pc: p.entry };
     if plan.e4_entry {
         for r in 0..=29u8 {
             let kind = if r >= 19 { OriginKind::EntryCalleeSaved } else { OriginKind::EntryScratch };
